@@ -536,6 +536,9 @@ func nativeReplay(relDir, replayPath string, ovPaths map[string]string, repeat i
 	if strings.Contains(s, "REPLAY-REPRODUCED") {
 		return true, s
 	}
+	if lbl := replayLabel(replayPath); lbl != "" && strings.Contains(s, "REPLAY-VIOLATION "+lbl+"\n") {
+		return true, s // assertion failed natively; the process died later
+	}
 	// a crash of the test process caused by a panic in a goroutine
 	var rj replayJSON
 	if b, err := os.ReadFile(replayPath); err == nil {
@@ -545,6 +548,14 @@ func nativeReplay(relDir, replayPath string, ovPaths map[string]string, repeat i
 		return true, s
 	}
 	return false, s
+}
+
+func replayLabel(path string) string {
+	var rj replayJSON
+	if b, err := os.ReadFile(path); err == nil {
+		json.Unmarshal(b, &rj)
+	}
+	return rj.Label
 }
 
 func replayOnly(ovPaths map[string]string) int {
